@@ -267,6 +267,19 @@ def gen_source(ctx, asset, depth, need, safe=False):
     if x < 0.7:
         n = r.choice([0, 1, 2, 2, 3, 3])
         subs = [gen_source(ctx, asset, depth - 1, need, safe) for _ in range(n)]
+        if n >= 1 and ctx.chance("free_prefix", 0.12):
+            # a few draws that consult no balance (a capped @world, a capped unbounded overdraft) in front of the accounts:
+            # they push senders without touching the per-account bookkeeping the later sources rely on
+            pre = []
+            for _ in range(r.randrange(1, 4)):
+                k = r.choice([0, 1, 1, 2, 3])
+                if r.random() < 0.6:
+                    pre.append(("max [%s %d] from @world" % (asset, k), ('capped', k, ('acct', 'world', 0))))
+                else:
+                    nm = r.choice(ACCOUNTS)
+                    pre.append(("max [%s %d] from @%s allowing unbounded overdraft" % (asset, k, nm), ('capped', k, ('unb', nm))))
+            subs = pre + subs
+            ctx.features.add("src-free-prefix")
         ctx.features.add("src-inorder")
         return "{ " + " ".join(t for t, _ in subs) + " }", ('inorder', [s for _, s in subs])
     if x < 0.85:
